@@ -162,10 +162,11 @@ def pipeline(tier, rep, calibrate=True):
     return tv, st
 
 
-def replay(path):
-    """Re-execute one saved deviating event on the current tree and validate it again."""
-    j = json.load(open(path))
-    ev = j["event"]
+def replay(rec):
+    """check.py --replay hook. Re-executes one saved deviating event on the current tree (inplace_function events:
+    the planned script of the same edge; form / tuple cases: the one case) and validates it again.
+    Returns the (non-lifetime) deviations that are still reported."""
+    ev = rec["event"]
     have = {"etl": probes("etl")}
     b = build_drivers(have, std=False)["etl"]
     d = vlib.workdir("scripts")
@@ -187,9 +188,4 @@ def replay(path):
         open(sp, "w").write(json.dumps(case) + "\n")
         vlib.run([b, "cases", sp], tp)
     tv = vlib.tlc_tv("CallableTrace.tla", "CallableTrace.cfg", tp, "callable_tv_replay")
-    devs = [x for x in tv["deviations"] if not x["kind"].startswith("life")]
-    for x in devs:
-        print("VIOLATION property=C20 replay=%s kind=%s" % (path, x["kind"]))
-    if not devs:
-        print("replay: %d event(s) re-executed, no deviation on the current tree" % tv["events"])
-    return 1 if devs else 0
+    return [x for x in tv["deviations"] if not x["kind"].startswith("life")]
